@@ -100,8 +100,7 @@ func (rp *replayer) engineReplay(h *Harness, c *Candidate) (confirmed bool, out 
 	pkg := rp.ld.pkgs[h.Pkg]
 	fn := pkg.Func(h.Name)
 	res := &HarnessResult{H: h, Obls: map[string]*OblStat{}, Reaches: map[string]int{}, Funcs: map[string]bool{}, Stubs: map[string]bool{}, UnwindFail: map[string]bool{}}
-	var pending [][]int
-	ex := newExec(rp.ld, h, nil, res, nil, nil, &pending)
+	ex := newExec(rp.ld, h, nil, res, nil, nil, func([]int) {})
 	ex.sess.concrete = true
 	ex.sess.model = c.Model
 	ex.explicitIn = append([]int{}, c.Explicit...)
